@@ -150,7 +150,7 @@ def rule_r4(ctx: Ctx) -> None:
         if fn is None:
             raise AnalysisError("anchor %s.modulo missing" % cname)
         # every loop / enumeration whose trip count depends on the repetition count is bounded by the divisor
-        its = iteration_bounds(c, fn)
+        its = iteration_bounds(c, fn, ctx.inl(fn))
         for it in its:
             ctx.check(it["bounded"], fn.short, "%s: count = %s" % (it["construct"], it["count"]), "the number of iterations / enumerated copies must be bounded by a function of the divisor (<= 4*divisor), not by the repetition count", "%s:%d" % (fn.module.relpath, it["line"]), it)
         ctx.check(True, fn.short, "%d count-dependent iteration construct(s)" % len(its), "scan completed", fn.where(), nontrivial=False)
